@@ -26,6 +26,7 @@ import (
 	"k8s.io/apimachinery/pkg/runtime"
 	"k8s.io/apimachinery/pkg/runtime/schema"
 	"k8s.io/apimachinery/pkg/types"
+	"k8s.io/utils/ptr"
 	"sigs.k8s.io/controller-runtime/pkg/client"
 	"sigs.k8s.io/controller-runtime/pkg/reconcile"
 	"sigs.k8s.io/yaml"
@@ -34,7 +35,10 @@ import (
 	"github.com/crossplane/crossplane-runtime/pkg/logging"
 	xpresource "github.com/crossplane/crossplane-runtime/pkg/resource"
 	"github.com/crossplane/crossplane-runtime/pkg/resource/unstructured/composed"
+	ucomposite "github.com/crossplane/crossplane-runtime/pkg/resource/unstructured/composite"
 
+	xpextv1 "github.com/crossplane/crossplane/apis/apiextensions/v1"
+	xcomposite "github.com/crossplane/crossplane/internal/controller/apiextensions/composite"
 	usagectrl "github.com/crossplane/crossplane/internal/controller/apiextensions/usage"
 	usagehook "github.com/crossplane/crossplane/internal/usage"
 	"github.com/crossplane/crossplane/verifh/sim"
@@ -461,6 +465,17 @@ func (e *env) reconcile(name string) (res reconcile.Result, err error, crashed b
 	})
 	e.mon.endReconcile(ua.actor, crashed)
 	e.mon.count("usage_reconciles", 1)
+	if !crashed && err == nil {
+		// after a completed reconcile a Ready Usage NAMES what it protects: the reference its selector
+		// resolved to is stored on it (that is what the deletion webhook looks Usages up by)
+		if u := e.w.GetObj(sim.Key{Group: usageGroup, Kind: "Usage", Name: name}); u != nil && isReady(u) && !sim.Terminating(u) {
+			if _, ok := named(u); !ok {
+				e.mon.mu.Lock()
+				e.mon.add("O1-ready-usage-does-not-name-the-used-resource", fmt.Sprintf("Usage %s is Ready after a completed reconcile but its stored spec.of carries no resourceRef (spec.of=%v)", name, u["spec"].(map[string]any)["of"]))
+				e.mon.mu.Unlock()
+			}
+		}
+	}
 	if err != nil {
 		e.mon.count("usage_reconcile_errors", 1)
 	}
@@ -479,6 +494,20 @@ func (e *env) compose(c *sim.Client, us usageSpec) error {
 	}
 	a := xpresource.NewAPIPatchingApplicator(c)
 	return a.Apply(bg, cd, xpresource.MustBeControllableBy(xrUID), usagectrl.RespectOwnerRefs())
+}
+
+// xrCompose runs the REAL patch-and-transform composer for the named XR with a one-template
+// revision: a Thing called "tc" (the composer re-applies it on every call, as an XR reconcile does).
+func (e *env) xrCompose(c *sim.Client, xrName string) error {
+	xr := ucomposite.New(ucomposite.WithGroupVersionKind(schema.GroupVersionKind{Group: xrGK.Group, Version: "v1", Kind: xrGK.Kind}))
+	if err := c.Get(bg, types.NamespacedName{Name: xrName}, xr); err != nil {
+		return err
+	}
+	base := map[string]any{"apiVersion": apiV(e.grp, "v1"), "kind": "Thing", "metadata": map[string]any{"name": "tc", "labels": map[string]any{"thing-name": "tc", "grp": "a"}}, "spec": map[string]any{"v": "1"}}
+	raw, _ := json.Marshal(base)
+	rev := &xpextv1.CompositionRevision{Spec: xpextv1.CompositionRevisionSpec{Resources: []xpextv1.ComposedTemplate{{Name: ptr.To("used"), Base: runtime.RawExtension{Raw: raw}}}}}
+	_, err := xcomposite.NewPTComposer(c, c).Compose(bg, xr, xcomposite.CompositionRequest{Revision: rev})
+	return err
 }
 
 // ---- garbage collector actor (sim's actions plus orphan propagation, which sim lacks) ----
